@@ -97,6 +97,10 @@ BOUNDARY = [
     (['1000.     code', '    more'], '<ol start="1000">\n<li>\n<pre><code>code\n</code></pre>\n</li>\n</ol>\n<pre><code>more\n</code></pre>'),
     (['- > # h', 'text', '', '> - a', '>', '>   # h', '  2. x'],
      '<ul>\n<li>\n<blockquote>\n<h1>h</h1>\n</blockquote>\n</li>\n</ul>\n<p>text</p>\n<blockquote>\n<ul>\n<li>\n<p>a</p>\n<h1>h</h1>\n</li>\n</ul>\n</blockquote>\n<ol start="2">\n<li>x</li>\n</ol>'),
+    # 5.2 / 5.3: the blank line after an empty last item belongs to what contains the list
+    (['- 1. w', '  2.', '', '  w'], '<ul>\n<li>\n<ol>\n<li>w</li>\n<li></li>\n</ol>\n<p>w</p>\n</li>\n</ul>'),
+    (['- 1. w', '  2.', '', '- x'], '<ul>\n<li>\n<ol>\n<li>w</li>\n<li></li>\n</ol>\n</li>\n<li>\n<p>x</p>\n</li>\n</ul>'),
+    (['- a', '-', '', '* * *', '', '+', '', '- - -'], '<ul>\n<li>a</li>\n<li></li>\n</ul>\n<hr />\n<ul>\n<li></li>\n</ul>\n<hr />'),
 ]
 LEAVES = LEAVES + ['boundary:%d' % i for i in range(len(BOUNDARY))]
 
